@@ -68,6 +68,8 @@ func main() {
 		modeLife(os.Args[2:])
 	case "racestress":
 		modeRaceStress(os.Args[2:])
+	case "burst":
+		modeBurst(os.Args[2:])
 	case "stoprace":
 		modeStopRace(os.Args[2:])
 	case "witness":
